@@ -340,7 +340,9 @@ func (p *Plugin) out(workerData *pipeline.WorkerData, batch *pipeline.Batch) err
 
 	dataArr := root.AddFieldNoAlloc(root, "data").MutateToArray()
 	batch.ForEach(func(event *pipeline.Event) {
-		dataArr.AddElementNoAlloc(root).MutateToNode(event.Root.Node)
+		// send() removes the timestamp and message fields: work on a copy,
+		// the nodes of the event are needed again if the batch is retried
+		dataArr.AddElementNoAlloc(root).MutateToJSON(root, event.Root.EncodeToString())
 	})
 
 	code, err := p.send(root)
